@@ -389,7 +389,7 @@ func (c *Ctx) c13SharedSinks() {
 					pt, ok := a.Type().Underlying().(*types.Pointer)
 					var tn *types.Named
 					if ok {
-						tn, _ = pt.Elem().(*types.Named)
+						tn, _ = types.Unalias(pt.Elem()).(*types.Named)
 					}
 					if tn == nil || tn.Obj().Pkg() == nil || !strings.HasPrefix(tn.Obj().Pkg().Path(), modPath) {
 						c.violate("L3", key, c.ipos(news[j]), "two log.Logger values share a writer of type "+a.Type().String()+" whose Write this repository does not lock")
